@@ -1,6 +1,9 @@
-"""C19 - sequence counters (engine H).  Reference model: an integer counter modulo 2^w.
-Events: N = next(provider), G = provider.get_and_increment(), C = provider.current() (file-backed only),
-R = restart (drop the instance, create a new one on the same file).  DESIGN.md section 4, C19."""
+"""C19 - sequence counters (engine H).  Reference model: an integer counter modulo 2^w, w = the provider's
+current `max_bit_width`.
+Events: N = next(provider), G = provider.get_and_increment(), C = provider.current() on the live instance AND on a
+fresh instance created on the same file (file-backed only), R = restart (drop the instance, create a new one on the
+same file, with the current width), W<k> = `provider.max_bit_width = k` (the documented setter of the
+ProvidesSeqCount interface).  DESIGN.md section 4, C19."""
 
 from __future__ import annotations
 
@@ -18,16 +21,37 @@ LEVEL = "model_checking"
 EXHAUSTIVE = True
 RULE = (
     "in-memory provider: every width 1..W, 2*2^w+3 consecutive calls (more than a full cycle), alternating next()/get_and_increment(); "
-    "file-backed providers: widths 1..3 every event sequence over {next, get_and_increment, current, restart} up to depth D (stateless) and "
-    "state-hashing BFS on (file content, instance attributes) to the fixpoint; larger widths: one full cycle + 3 with a restart at every "
-    "inter-call point and one without; PusFileSeqCountProvider likewise; rejection alphabet of unambiguously invalid file contents; missing file. "
-    "A case = one executed history; states = distinct (file content, live instance) pairs reached."
+    "every history over {next, get_and_increment, max_bit_width=1|2|3} up to depth D from each start width (stateless) and state-hashing BFS over "
+    "(count, width) with the width alphabet A to the fixpoint; "
+    "file-backed providers: widths 1..3 every event sequence over {next, get_and_increment, current, restart} up to depth D, every sequence over "
+    "{next, get_and_increment, current, restart, max_bit_width=1|2|3} up to depth Ds (stateless) and state-hashing BFS on (file content, instance "
+    "attributes, model) over the events + width alphabet A to the fixpoint; PusFileSeqCountProvider: every sequence over the same events with "
+    "widths {1,3,14} up to depth Ds; larger widths: one full cycle + 3 from a fresh file and one full cycle + 6 from a file holding 2^w-3 (so "
+    "every count is also visited with the stale tail bytes a wrap leaves behind), each with a restart at every inter-call point and without any, "
+    "current() on the live and on a fresh instance at EVERY inter-call point; EVERY width 1..128 (so also 31..33, 53..55, 63..65, 127, 128): 8 calls across "
+    "the wrap from 2^w-3, with and without restarts; width change mid-run for ordered width pairs (3 calls, set, 2^w2+3 calls); a narrowing "
+    "set is only judged when the current count fits the new width, widening always; rejection alphabet of unambiguously invalid file contents "
+    "(incl. 2^w and 2^w+1 for every width, also when the width was reached through the setter), acceptance of 0 and 2^w-1; missing file; "
+    "several live providers (in-memory and file-backed, widths 1, 2, 14, separate files), every interleaving of calls up to depth Di, created up-front "
+    "or at first use: each counts on its own. "
+    "A case = one executed history; states = distinct (file content, live instance, model) triples reached."
 )
-BOUNDS = {"quick": "W=10 in-memory; file widths 1..3 exhaustive depth<=8 + fixpoint, widths 4..8 + PUS(14) cycle", "thorough": "W=16 in-memory; file widths 1..4 exhaustive depth<=10 + fixpoint, widths 5..14 cycle"}
+BOUNDS = {
+    "quick": "W=10 in-memory, D=6, A={1..5}; file widths 1..3 exhaustive depth<=8, Ds=5, A={1..4} fixpoint, widths 4..8,10 + PUS(14) cycles, "
+             "top-of-range runs and rejection for every width 1..128, width pairs over {2,5,8,10}, 5 live providers interleaved depth<=5",
+    "thorough": "W=16 in-memory, D=7, A={1..6}; file widths 1..4 exhaustive depth<=10, Ds=6, A={1..5,7} fixpoint, widths 5..14 cycles, "
+                "top-of-range runs and rejection for every width 1..128, width pairs over {2,5,8,11,14} (in-memory also 16), 5 live providers interleaved depth<=7",
+}
 ASSUMPTIONS = [
     "crash points are the inter-call points, as the property states (torn writes inside a call are not claimed)",
     "the file system gives read-your-writes on a closed file (private temporary directory)",
+    "a file holding '<v>\\n' with 0 <= v < 2^w is the state a provider that stopped at v leaves behind (used to start runs at 2^w-3)",
+    "SeqCountProvider.count is the public next-value attribute; it is only used to start near the top of wide counters after the check "
+    "has observed that it exists, is 0 on a new provider and 1 after one call (otherwise the wide in-memory runs are skipped and counted)",
+    "a restart re-creates the instance with the width currently in force (PusFileSeqCountProvider: 14)",
 ]
+
+WIDE = tuple(range(1, 129))  # 'for all widths': every width up to 16-octet counters, in particular 31..33, 53..55, 63..65
 
 
 def _sc():
@@ -41,12 +65,21 @@ def _tmpdir():
     return tempfile.mkdtemp(prefix="c19-", dir=base)
 
 
-def first_line_value(path):
-    with open(path) as f:
-        return f.readline().rstrip()
+def _clsname(cls):
+    return {"pus": "PusFileSeqCountProvider", "file": "FileSeqCountProvider", "mem": "SeqCountProvider"}[cls]
 
 
-# --------------------------------------------------------------- in-memory provider
+def mem_count_attr_is_state():
+    """the public attribute `count` demonstrably is the in-memory provider's next value"""
+    p = _sc().SeqCountProvider(5)
+    if vars(p).get("count", None) != 0 or isinstance(vars(p).get("count"), bool):
+        return False
+    if next(p) != 0:
+        return True  # the first-use clause fails; the runs report it
+    return vars(p).get("count", None) == 1
+
+
+# --------------------------------------------------------------- in-memory provider, full cycles
 def mem_history(rec, w):
     sc = _sc()
     import spacepackets.ccsds.spacepacket as sp
@@ -80,78 +113,185 @@ def mem_history(rec, w):
     rec.outcome(f"mem/w={w}/calls={n}")
 
 
-# --------------------------------------------------------------- file-backed provider
-class FileMachine:
-    """the real provider on a private file plus the integer model"""
+# --------------------------------------------------------------- the machine: real provider + integer model
+def _applicable(cls, model, ev):
+    if ev in ("C", "R"):
+        if cls == "mem":
+            return False
+        if ev == "R" and cls == "pus":
+            return model < (1 << 14)  # the new instance is 14 bit wide again
+        return True
+    if ev[0] == "W":
+        return model < (1 << int(ev[1:]))  # narrowing is judged only if the count fits; widening always
+    return True
 
-    def __init__(self, cls, w, path):
+
+class Machine:
+    """the real provider (in memory, or on a private file) plus the integer model (count, width)"""
+
+    def __init__(self, cls, w, path=None, start=None):
         self.sc = _sc()
-        self.cls, self.w, self.path = cls, w, Path(path)
-        self.mod = 1 << w
-        self.model = 0
-        if self.path.exists():
-            self.path.unlink()
+        self.cls, self.w = cls, w
+        self.path = Path(path) if path is not None else None
+        self.model = 0 if start is None else start
+        self.ops = 0
+        if cls != "mem":
+            if self.path.exists():
+                self.path.unlink()
+            if start is not None:
+                self.path.write_text(f"{start}\n")
         self.inst = self._new()
+        if cls == "mem" and start is not None:
+            self.inst.count = start
+
+    @property
+    def mod(self):
+        return 1 << self.w
 
     def _new(self):
+        if self.cls == "mem":
+            return self.sc.SeqCountProvider(self.w)
         if self.cls == "pus":
             return self.sc.PusFileSeqCountProvider(self.path)
         return self.sc.FileSeqCountProvider(self.w, self.path)
 
+    def applicable(self, ev):
+        """events whose outcome the property fixes in the current model state"""
+        return _applicable(self.cls, self.model, ev)
+
+    def _try(self, fn):
+        self.ops += 1
+        try:
+            return None, fn()
+        except Exception as e:  # noqa: BLE001 - every operation of a judged history must succeed
+            return e, None
+
     def apply(self, ev):
         """returns None or (kind, observed, expected)"""
         if ev == "R":
-            self.inst = self._new()
+            e, inst = self._try(self._new)
+            if e is not None:
+                return ("restart/raised", repr(e), "a new instance on a file holding a valid count")
+            self.inst = inst
+            if self.cls == "pus":
+                self.w = 14
         elif ev == "C":
-            v = self.inst.current()
+            e, v = self._try(self.inst.current)
+            if e is not None:
+                return ("current/raised", repr(e), self.model)
             if v != self.model:
                 return ("current/wrong-value", v, self.model)
+            width = self.w
+
+            def fresh():
+                inst = self._new()
+                if self.cls == "pus" and width != 14:
+                    inst.max_bit_width = width
+                return inst.current()
+
+            e, v = self._try(fresh)
+            if e is not None:
+                return ("current/fresh-instance-raised", repr(e), self.model)
+            if v != self.model:
+                return ("current/fresh-instance-wrong-value", v, self.model)
+        elif ev[0] == "W":
+            w2 = int(ev[1:])
+
+            def setw():
+                self.inst.max_bit_width = w2
+
+            e, _ = self._try(setw)
+            if e is not None:
+                return ("width/setter-raised", repr(e), None)
+            self.w = w2
         else:
-            v = next(self.inst) if ev == "N" else self.inst.get_and_increment()
+            e, v = self._try((lambda: next(self.inst)) if ev == "N" else self.inst.get_and_increment)
+            if e is not None:
+                return ("count/raised", repr(e), self.model)
             if v != self.model:
                 return ("count/wrong-value", v, self.model)
             if not (0 <= v < self.mod):
                 return ("range/out-of-range", v, None)
             self.model = (self.model + 1) % self.mod
+        if self.cls == "mem":
+            return None
         # at every inter-call point the file holds a valid count: the model's next value
-        line = first_line_value(self.path)
-        if not (line.isascii() and line.isdigit() and int(line) == self.model):
+        try:
+            with open(self.path, "rb") as f:
+                raw = f.readline()
+        except FileNotFoundError:
+            return ("file/missing", None, str(self.model))
+        try:
+            line = raw.decode("ascii").rstrip()
+        except UnicodeDecodeError:
+            return ("file/not-the-next-count", repr(raw), str(self.model))
+        if not (line.isdigit() and int(line) == self.model):
             return ("file/not-the-next-count", line, str(self.model))
         return None
 
     def key(self):
         d = dict(self.inst.__dict__)
-        return (self.path.read_bytes(), tuple(sorted((k, repr(v)) for k, v in d.items())))
+        content = self.path.read_bytes() if self.cls != "mem" else None
+        return (content, tuple(sorted((k, repr(v)) for k, v in d.items())), self.model, self.w)
 
 
-def file_stateless(rec, cls, w, depth, tmp, first="N"):
-    path = os.path.join(tmp, f"sl-{cls}-{w}.txt")
-    evs = "NGCR"
-    n = 0
-    for L in range(0 if first == "N" else 1, depth + 1):
-        for tail in itertools.product(evs, repeat=max(L - 1, 0)):
+def _sig(r0, cls, feat):
+    """<ID>.<clause>/<subject>/<kind>/<feature>"""
+    clause, kind = r0.split("/", 1)
+    return f"C19.{clause}/{_clsname(cls)}/{kind}/{feat}"
+
+
+def _feat(prefix):
+    if any(e[0] == "W" for e in prefix):
+        return "after-width-change"
+    return "after-restart" if "R" in prefix else "no-restart"
+
+
+def _hist_case(cls, w, seq, start=None):
+    return {"kind": "hist", "cls": cls, "w": w, "start": start, "seq": list(seq)}
+
+
+def stateless(rec, cls, w, events, depth, tmp, first):
+    """every history over `events` with first event `first` and length <= depth, each executed from scratch"""
+    path = os.path.join(tmp, f"sl-{cls}-{w}.txt") if cls != "mem" else None
+    n = skipped = 0
+    ops = 0
+    lengths = range(0 if first == events[0] else 1, depth + 1)
+    for L in lengths:
+        for tail in itertools.product(events, repeat=max(L - 1, 0)):
             seq = ((first,) + tail) if L else ()
-            m = FileMachine(cls, w, path)
-            n += 1
+            m = Machine(cls, w, path)
+            ok = True
             for i, ev in enumerate(seq):
+                if not m.applicable(ev):
+                    ok = False
+                    break
                 r = m.apply(ev)
                 rec.transitions += 1
                 if r:
-                    feat = "after-restart" if "R" in seq[: i + 1] else "no-restart"
-                    rec.violation(f"C19.{r[0]}/{_clsname(cls)}/{feat}", {"kind": "file", "cls": cls, "w": w, "seq": "".join(seq[: i + 1])}, r[1], r[2])
+                    rec.violation(_sig(r[0], cls, _feat(seq[: i + 1])), _hist_case(cls, w, seq[: i + 1]), r[1], r[2])
                     break
+            ops += m.ops
+            if ok:
+                n += 1
+            else:
+                skipped += 1
     rec.traces += n
     rec.evaluations += n
-    rec.nontrivial += n - 1
-    rec.count(f"stateless_histories_w{w}", n)
+    rec.nontrivial += max(n - (1 if lengths[0] == 0 else 0), 0)
+    rec.ops += ops
+    rec.count(f"stateless_histories_{cls}_w{w}", n)
+    rec.count("histories_cut_at_an_unjudged_narrowing", skipped)
+    rec.outcome(f"stateless/{cls}/w={w}/events={''.join(events)}/depth={depth}")
 
 
-def file_bfs(rec, cls, w, tmp):
-    """state-hashing search to the fixpoint; a state is rebuilt by replaying its history on a fresh file"""
-    path = os.path.join(tmp, f"bfs-{cls}-{w}.txt")
+def bfs(rec, cls, w, widths, tmp):
+    """state-hashing search to the fixpoint; a state is rebuilt by replaying its history from scratch"""
+    path = os.path.join(tmp, f"bfs-{cls}-{w}.txt") if cls != "mem" else None
+    events = (["N", "G"] if cls == "mem" else ["N", "G", "C", "R"]) + [f"W{k}" for k in widths]
 
     def build(hist):
-        m = FileMachine(cls, w, path)
+        m = Machine(cls, w, path)
         for ev in hist:
             r = m.apply(ev)
             if r:
@@ -160,88 +300,234 @@ def file_bfs(rec, cls, w, tmp):
 
     m, _ = build(())
     seen = {m.key(): ()}
-    frontier = collections.deque([()])
+    frontier = collections.deque([((), m.model)])
+    unjudged = 0
     while frontier:
-        hist = frontier.popleft()
-        for ev in "NGCR":
+        hist, model = frontier.popleft()
+        for ev in events:
+            if not _applicable(cls, model, ev):
+                unjudged += 1
+                continue
             h2 = hist + (ev,)
             m, r = build(h2)
             rec.transitions += 1
+            rec.ops += 1
             if r:
-                rec.violation(f"C19.{r[0]}/{_clsname(cls)}/bfs", {"kind": "file", "cls": cls, "w": w, "seq": "".join(h2)}, r[1], r[2])
+                rec.violation(_sig(r[0], cls, "bfs"), _hist_case(cls, w, h2), r[1], r[2])
                 continue
             k = m.key()
             if k not in seen:
                 seen[k] = h2
-                frontier.append(h2)
+                frontier.append((h2, m.model))
     rec.states += len(seen)
     rec.traces += len(seen)
-    rec.case(True, ops=len(seen))
-    rec.count(f"bfs_states_w{w}", len(seen))
-    rec.outcome(f"bfs/{cls}/w={w}/states={len(seen)}")
-    # a full cycle must come back to a state with the same file *value* (content may differ in stale bytes)
-    if len(seen) < (1 << w):
-        rec.violation(f"C19.count/{_clsname(cls)}/fewer-states-than-counts", {"kind": "bfs", "cls": cls, "w": w}, len(seen), 1 << w)
+    rec.case(True)
+    rec.count(f"bfs_states_{cls}_w{w}", len(seen))
+    rec.count("bfs_unjudged_narrowings", unjudged)
+    rec.outcome(f"bfs/{cls}/w={w}/widths={','.join(map(str, widths))}/states={len(seen)}")
+    # every count of the widest counter must be a distinct state
+    top = 1 << max(list(widths) + [w])
+    if len(seen) < top:
+        rec.violation(f"C19.count/{_clsname(cls)}/fewer-states-than-counts", {"kind": "bfs", "cls": cls, "w": w, "widths": list(widths)}, len(seen), top)
 
 
-def file_cycle(rec, cls, w, restart_every, tmp):
-    path = os.path.join(tmp, f"cy-{cls}-{w}-{int(restart_every)}.txt")
-    m = FileMachine(cls, w, path)
-    n = (1 << w) + 3
-    seq = []
-    for i in range(n):
-        for ev in ((("R",) if restart_every else ()) + (("N",) if i % 2 else ("G",))):
-            seq.append(ev)
-            r = m.apply(ev)
-            rec.transitions += 1
-            if r:
-                rec.violation(f"C19.{r[0]}/{_clsname(cls)}/cycle" + ("/restart-every-call" if restart_every else ""),
-                              {"kind": "cycle", "cls": cls, "w": w, "restart_every": restart_every, "upto": i}, r[1], r[2])
-                return
-    rec.states += 1 << w
+def _script(rec, sig_tail, case, m, script):
+    """run an iterable of events on machine m; False after the first violation"""
+    for ev in script:
+        if not m.applicable(ev):
+            raise AssertionError(f"check bug: scripted event {ev} not judged in {case}")
+        r = m.apply(ev)
+        rec.transitions += 1
+        if r:
+            rec.violation(_sig(r[0], m.cls, sig_tail), case, r[1], r[2])
+            return False
+    return True
+
+
+def _calls(n, restart_every, observe=True, first=0):
+    for i in range(first, first + n):
+        if restart_every:
+            yield "R"
+        yield "N" if i % 2 else "G"
+        if observe:
+            yield "C"
+
+
+def file_cycle(rec, cls, w, restart_every, near_top, tmp):
+    """one full cycle: from a fresh file (2^w+3 calls) or from a file holding 2^w-3 (2^w+6 calls: wraps at once, then
+    visits every count with the stale tail bytes of the longer counts behind the first line, wraps again)"""
+    path = os.path.join(tmp, f"cy-{cls}-{w}.txt")
+    mod = 1 << w
+    start = (mod - 3) % mod if near_top else None
+    m = Machine(cls, w, path, start=start)
+    n = mod + (6 if near_top else 3)
+    case = {"kind": "cycle", "cls": cls, "w": w, "restart_every": restart_every, "near_top": near_top}
+    ok = _script(rec, "cycle" + ("/restart-every-call" if restart_every else ""), case, m, itertools.chain(["C"], _calls(n, restart_every)))
+    rec.states += mod
     rec.traces += 1
-    rec.case(True, ops=len(seq))
-    rec.outcome(f"cycle/{cls}/w={w}/restart={restart_every}")
-    rec.sample({"provider": _clsname(cls), "width": w, "restart_at_every_inter_call_point": restart_every, "calls": n, "last_value_expected": (n - 1) % (1 << w)})
+    rec.case(True, ops=m.ops)
+    if ok:
+        rec.outcome(f"cycle/{cls}/w={w}/restart={restart_every}/near_top={near_top}")
+        rec.sample({"provider": _clsname(cls), "width": w, "restart_at_every_inter_call_point": restart_every, "file_starts_at": start or 0,
+                    "calls": n, "current()_on_live_and_fresh_instance_after_every_call": True, "last_value_expected": ((start or 0) + n - 1) % mod})
 
 
-def _clsname(cls):
-    return "PusFileSeqCountProvider" if cls == "pus" else "FileSeqCountProvider"
+def wide(rec, cls, restart_every, tmp):
+    """widths beyond what a cycle can cover: 8 calls across the wrap, starting at 2^w-3"""
+    if cls == "mem" and not mem_count_attr_is_state():
+        rec.count("mem_wide_widths_skipped_no_public_count_attribute", len(WIDE))
+        rec.case(False)
+        return
+    for w in WIDE:
+        path = os.path.join(tmp, f"wide-{cls}-{w}.txt") if cls != "mem" else None
+        case = {"kind": "wide", "cls": cls, "restart_every": restart_every, "w": w}
+        if cls == "mem":  # first use of a new provider yields 0 whatever the width
+            p = _sc().SeqCountProvider(w)
+            v = next(p)
+            if v != 0:
+                rec.violation("C19.count/SeqCountProvider/wide/first-use-not-zero", case, v, 0)
+        top = ((1 << w) - 3) % (1 << w)
+        m = Machine(cls, w, path, start=top)
+        ok = _script(rec, "wide" + ("/restart-every-call" if restart_every else ""), case, m,
+                     itertools.chain(["C"] if cls != "mem" else [], _calls(8, restart_every, observe=cls != "mem")))
+        rec.states += 8
+        rec.traces += 1
+        rec.case(True, ops=m.ops)
+        if ok:
+            rec.outcome(f"wide/{cls}/w={w}/restart={restart_every}")
+            if w in (54, 64):
+                rec.sample({"provider": _clsname(cls), "width": w, "starts_at": top, "calls": 8, "expected": [(top + i) % (1 << w) for i in range(8)]}, limit=2)
+    rec.count(f"wide_widths_{cls}", len(WIDE))
+
+
+def setcycle(rec, cls, w1, w2, tmp):
+    """a width change on a live provider: k calls at width w1 (count k fits w2), set w2, then more than a full cycle"""
+    path = os.path.join(tmp, f"set-{cls}-{w1}-{w2}.txt") if cls != "mem" else None
+    k = min(3, (1 << w1) - 1, (1 << w2) - 1)
+    m = Machine(cls, w1, path)
+    case = {"kind": "setcycle", "cls": cls, "w1": w1, "w2": w2}
+    obs = cls != "mem"
+    n = (1 << w2) + 3
+    ok = _script(rec, "width-change-cycle", case, m, itertools.chain(_calls(k, False, obs), [f"W{w2}"], ["C"] if obs else [], _calls(n, False, obs, first=k)))
+    rec.states += 1 << w2
+    rec.traces += 1
+    rec.case(True, ops=m.ops)
+    if ok:
+        rec.outcome(f"setcycle/{cls}/{w1}->{w2}")
+        rec.sample({"provider": _clsname(cls), "calls_at_width": [w1, k], "then_max_bit_width": w2, "then_calls": n, "expected": f"(i) mod 2^{w2} for call i"}, limit=2)
+
+
+# --------------------------------------------------------------- several live providers (every provider counts on its own)
+PROVS = [["mem", 1], ["file", 1], ["mem", 2], ["file", 2], ["pus", 14]]
+
+
+def interleave_one(rec, provs, lazy, seq, tmp):
+    """one history: seq[j] = index of the provider that is called at step j (get_and_increment / next alternate).
+    lazy: a provider is created at its first use (after others were used) instead of all up-front."""
+    def mk(i):
+        cls, w = provs[i]
+        return Machine(cls, w, os.path.join(tmp, f"il-{i}.txt") if cls != "mem" else None)
+
+    ms = {} if lazy else {i: mk(i) for i in range(len(provs))}
+    for j, i in enumerate(seq):
+        if i not in ms:
+            ms[i] = mk(i)
+        r = ms[i].apply("N" if j % 2 else "G")
+        if r is None and provs[i][0] != "mem" and j % 3 == 2:
+            r = ms[i].apply("C")
+        rec.transitions += 1
+        if r:
+            rec.violation(_sig(r[0], provs[i][0], "interleaved-with-other-providers"),
+                          {"kind": "interleave", "provs": provs, "lazy": lazy, "seq": list(seq[: j + 1])}, r[1], r[2])
+            return False
+    rec.ops += sum(m.ops for m in ms.values())
+    return True
+
+
+def interleave(rec, provs, lazy, depth, first, tmp):
+    n = 0
+    for L in range(1, depth + 1):
+        for tail in itertools.product(range(len(provs)), repeat=L - 1):
+            interleave_one(rec, provs, lazy, (first,) + tail, tmp)
+            n += 1
+    rec.traces += n
+    rec.evaluations += n
+    rec.nontrivial += n
+    rec.count("interleaved_histories", n)
+    rec.outcome(f"interleave/lazy={lazy}/depth={depth}")
 
 
 # --------------------------------------------------------------- rejection clause
 def bad_contents(w):
     mod = 1 << w
-    return ["", "\n", "abc\n", "-1\n", "1.5\n", "0x1\n", " 7\n", f"{mod}\n", f"{mod + 1}\n", f"{10 ** 30}\n", "²\n", "+1\n", "1e3\n", "seven\n"]
+    return ["", "\n", "abc\n", "-1\n", "1.5\n", "0x1\n", " 7\n", f"{mod}\n", f"{mod + 1}\n", f"{max(10 ** 30, mod * 10)}\n", "²\n", "+1\n", "1e3\n", "seven\n"]
+
+
+OPS = ("next", "get_and_increment", "current")
+
+
+def _reject_modes(cls, w):
+    """how the provider got its width: constructor, or the documented setter from a wider / narrower one"""
+    if cls == "pus":
+        return [("ctor", 14)]
+    return [("ctor", w), ("narrowed", w + 8), ("widened", max(w - 1, 1))] if w > 1 else [("ctor", w), ("narrowed", w + 8)]
 
 
 def reject(rec, cls, w, tmp):
     sc = _sc()
     path = Path(os.path.join(tmp, f"rej-{cls}-{w}.txt"))
-    for content in bad_contents(w):
-        for op in ("next", "get_and_increment", "current"):
-            path.write_text(content, encoding="utf-8")
-            inst = sc.PusFileSeqCountProvider(path) if cls == "pus" else sc.FileSeqCountProvider(w, path)
-            case = {"kind": "reject", "cls": cls, "w": w, "content": content, "op": op}
-            rec.case(True, ops=1)
-            try:
-                v = next(inst) if op == "next" else getattr(inst, op)()
-            except ValueError:
-                rec.outcome("reject/ValueError")
-                continue
-            except Exception as e:
-                rec.violation(f"C19.reject/{_clsname(cls)}/wrong-exception/{type(e).__name__}", case, repr(e), "ValueError")
-                continue
-            rec.violation(f"C19.reject/{_clsname(cls)}/accepted", case, v, "ValueError")
+    mod = 1 << w
+
+    def make(mode, w0):
+        inst = sc.PusFileSeqCountProvider(path) if cls == "pus" else sc.FileSeqCountProvider(w0, path)
+        if mode != "ctor":
+            inst.max_bit_width = w
+        return inst
+
+    def call(inst, op):
+        return next(inst) if op == "next" else getattr(inst, op)()
+
+    for mode, w0 in _reject_modes(cls, w):
+        tag = "" if mode == "ctor" else "/width-set-by-setter"
+        for content in bad_contents(w) if mode == "ctor" else [f"{mod}\n", f"{mod + 1}\n"]:
+            for op in OPS:
+                path.write_text(content, encoding="utf-8")
+                inst = make(mode, w0)
+                case = {"kind": "reject", "cls": cls, "w": w, "content": content, "op": op, "mode": mode}
+                rec.case(True, ops=1)
+                try:
+                    v = call(inst, op)
+                except ValueError:
+                    rec.outcome("reject/ValueError")
+                    continue
+                except Exception as e:
+                    rec.violation(f"C19.reject/{_clsname(cls)}/wrong-exception/{type(e).__name__}", case, repr(e), "ValueError")
+                    continue
+                rec.violation(f"C19.reject/{_clsname(cls)}/accepted{tag}", case, v, "ValueError")
+        # the two extreme valid counts are accepted and continued from
+        for val in (0, mod - 1):
+            for op in OPS:
+                path.write_text(f"{val}\n")
+                inst = make(mode, w0)
+                case = {"kind": "accept", "cls": cls, "w": w, "content": f"{val}\n", "op": op, "mode": mode}
+                rec.case(True, ops=1)
+                try:
+                    v = call(inst, op)
+                except Exception as e:
+                    rec.violation(f"C19.count/{_clsname(cls)}/valid-file-content-refused{tag}", case, repr(e), val)
+                    continue
+                if v != val:
+                    rec.violation(f"C19.count/{_clsname(cls)}/valid-file-content-wrong-value{tag}", case, v, val)
+                rec.outcome("accept/value")
     # missing file
-    for op in ("next", "get_and_increment", "current"):
+    for op in OPS:
         path.write_text("0\n")
-        inst = sc.PusFileSeqCountProvider(path) if cls == "pus" else sc.FileSeqCountProvider(w, path)
+        inst = make("ctor", w)
         path.unlink()
         case = {"kind": "missing", "cls": cls, "w": w, "op": op}
         rec.case(True, ops=1)
         try:
-            v = next(inst) if op == "next" else getattr(inst, op)()
+            v = call(inst, op)
         except FileNotFoundError:
             rec.outcome("missing/FileNotFoundError")
             continue
@@ -252,28 +538,64 @@ def reject(rec, cls, w, tmp):
     # a provider created on a path without a file starts the sequence at 0 and creates a valid file
     if path.exists():
         path.unlink()
-    inst = sc.PusFileSeqCountProvider(path) if cls == "pus" else sc.FileSeqCountProvider(w, path)
+    inst = make("ctor", w)
     rec.case(True, ops=2)
     if not path.exists() or inst.current() != 0 or next(inst) != 0:
         rec.violation(f"C19.count/{_clsname(cls)}/fresh-file-not-zero", {"kind": "fresh", "cls": cls, "w": w}, None, 0)
 
 
 # --------------------------------------------------------------- shards
+def _pairs(ws):
+    return [(a, b) for a in ws for b in ws if a != b]
+
+
 def shards(tier):
     q = tier == "quick"
     items = [{"kind": "mem", "w": w} for w in range(1, (10 if q else 16) + 1)]
+    # in-memory: setter histories
+    mem_ev = ["N", "G", "W1", "W2", "W3"]
+    for w in (1, 2, 3):
+        for first in mem_ev:
+            items.append({"kind": "stateless", "cls": "mem", "w": w, "first": first, "events": mem_ev, "depth": 6 if q else 7})
+    amem = list(range(1, 6 if q else 7))
+    for w in amem:
+        items.append({"kind": "bfs", "cls": "mem", "w": w, "widths": amem})
+    for w1, w2 in _pairs((2, 5, 8, 10) if q else (2, 5, 8, 11, 14, 16)):
+        items.append({"kind": "setcycle", "cls": "mem", "w1": w1, "w2": w2})
+    items.append({"kind": "wide", "cls": "mem", "restart": False})
+    # file-backed: exhaustive small widths
     for w in (1, 2, 3) if q else (1, 2, 3, 4):
         for first in "NGCR":
-            items.append({"kind": "stateless", "cls": "file", "w": w, "first": first, "depth": min(2 * (1 << w) + 2, 8 if q else 10) if w < 3 else (7 if q else 8)})
-        items.append({"kind": "bfs", "cls": "file", "w": w})
-    for w in (range(4, 9) if q else range(5, 15)):
+            items.append({"kind": "stateless", "cls": "file", "w": w, "first": first, "events": list("NGCR"),
+                          "depth": min(2 * (1 << w) + 2, 8 if q else 10) if w < 3 else (7 if q else 8)})
+    set_ev = ["N", "G", "C", "R", "W1", "W2", "W3"]
+    for w in (1, 2, 3):
+        for first in set_ev:
+            items.append({"kind": "stateless", "cls": "file", "w": w, "first": first, "events": set_ev, "depth": 5 if q else 6})
+    pus_ev = ["N", "G", "C", "R", "W1", "W3", "W14"]
+    for first in pus_ev:
+        items.append({"kind": "stateless", "cls": "pus", "w": 14, "first": first, "events": pus_ev, "depth": 5 if q else 6})
+    afile = [1, 2, 3, 4] if q else [1, 2, 3, 4, 5, 7]
+    for w in afile:
+        items.append({"kind": "bfs", "cls": "file", "w": w, "widths": afile})
+    # file-backed: full cycles
+    for w in ((4, 5, 6, 7, 8, 10) if q else range(5, 15)):
         for r in (True, False):
-            items.append({"kind": "cycle", "cls": "file", "w": w, "restart": r})
+            for near_top in (False, True):
+                items.append({"kind": "cycle", "cls": "file", "w": w, "restart": r, "near_top": near_top})
     for r in (True, False):
-        items.append({"kind": "cycle", "cls": "pus", "w": 14, "restart": r})
-    for w in (1, 8, 14):
-        items.append({"kind": "reject", "cls": "file", "w": w})
-    items.append({"kind": "reject", "cls": "pus", "w": 14})
+        for near_top in (False, True):
+            items.append({"kind": "cycle", "cls": "pus", "w": 14, "restart": r, "near_top": near_top})
+    for w1, w2 in _pairs((2, 5, 8, 10) if q else (2, 5, 8, 11, 14)):
+        items.append({"kind": "setcycle", "cls": "file", "w1": w1, "w2": w2})
+    for r in (True, False):
+        items.append({"kind": "wide", "cls": "file", "restart": r})
+    for lazy in (False, True):
+        for first in range(len(PROVS)):
+            items.append({"kind": "interleave", "provs": PROVS, "lazy": lazy, "first": first, "depth": 5 if q else 7})
+    for k in range(0, len(WIDE), 16):
+        items.append({"kind": "reject", "cls": "file", "ws": list(WIDE[k:k + 16])})
+    items.append({"kind": "reject", "cls": "pus", "ws": [14]})
     return items
 
 
@@ -291,13 +613,20 @@ def _run(rec, item):
     tmp = _tmpdir()
     try:
         if k == "stateless":
-            file_stateless(rec, item["cls"], item["w"], item["depth"], tmp, item["first"])
+            stateless(rec, item["cls"], item["w"], list(item["events"]), item["depth"], tmp, item["first"])
         elif k == "bfs":
-            file_bfs(rec, item["cls"], item["w"], tmp)
+            bfs(rec, item["cls"], item["w"], item["widths"], tmp)
         elif k == "cycle":
-            file_cycle(rec, item["cls"], item["w"], item["restart"], tmp)
+            file_cycle(rec, item["cls"], item["w"], item["restart"], item["near_top"], tmp)
+        elif k == "wide":
+            wide(rec, item["cls"], item["restart"], tmp)
+        elif k == "setcycle":
+            setcycle(rec, item["cls"], item["w1"], item["w2"], tmp)
+        elif k == "interleave":
+            interleave(rec, item["provs"], item["lazy"], item["depth"], item["first"], tmp)
         elif k == "reject":
-            reject(rec, item["cls"], item["w"], tmp)
+            for w in item["ws"]:
+                reject(rec, item["cls"], w, tmp)
     finally:
         shutil.rmtree(tmp, ignore_errors=True)
 
@@ -310,20 +639,29 @@ def replay(case):
         return rec.result()
     tmp = _tmpdir()
     try:
-        if k == "file":
-            m = FileMachine(case["cls"], case["w"], os.path.join(tmp, "replay.txt"))
-            seq = case["seq"]
+        if k == "hist":
+            cls = case["cls"]
+            m = Machine(cls, case["w"], os.path.join(tmp, "replay.txt") if cls != "mem" else None, start=case.get("start"))
+            seq = list(case["seq"])
             for i, ev in enumerate(seq):
+                if not m.applicable(ev):
+                    break
                 r = m.apply(ev)
                 if r:
-                    for feat in ("after-restart" if "R" in seq[: i + 1] else "no-restart", "bfs"):
-                        rec.violation(f"C19.{r[0]}/{_clsname(case['cls'])}/{feat}", case, r[1], r[2])
+                    for feat in (_feat(seq[: i + 1]), "bfs"):
+                        rec.violation(_sig(r[0], cls, feat), case, r[1], r[2])
                     break
         elif k == "cycle":
-            file_cycle(rec, case["cls"], case["w"], case["restart_every"], tmp)
+            file_cycle(rec, case["cls"], case["w"], case["restart_every"], case["near_top"], tmp)
+        elif k == "wide":
+            wide(rec, case["cls"], case["restart_every"], tmp)
+        elif k == "setcycle":
+            setcycle(rec, case["cls"], case["w1"], case["w2"], tmp)
         elif k == "bfs":
-            file_bfs(rec, case["cls"], case["w"], tmp)
-        else:
+            bfs(rec, case["cls"], case["w"], case["widths"], tmp)
+        elif k == "interleave":
+            interleave_one(rec, case["provs"], case["lazy"], case["seq"], tmp)
+        else:  # reject / accept / missing / fresh
             reject(rec, case["cls"], case["w"], tmp)
     finally:
         shutil.rmtree(tmp, ignore_errors=True)
